@@ -483,7 +483,8 @@ def case_of(req_line):
     """the key=value part of a request line without the result"""
     return " ".join(t for t in req_line.split(" ")[1:] if not t.startswith("result=") and not t.startswith("steps=")
                     and not t.startswith("final=") and not t.startswith("target=") and not t.startswith("bodyend=")
-                    and not t.startswith("mutated=") and not t.startswith("rewritten=") and not t.startswith("nv=") and not t.startswith("nm="))
+                    and not t.startswith("mutated=") and not t.startswith("rewritten=") and not t.startswith("nv=") and not t.startswith("nm=")
+                    and not t.startswith("graph=") and not t.startswith("graphfinal="))
 
 
 REL_CASES = set()          # failing cases observed on the release-semantics build (see harness/Cargo.toml, profile relsem)
@@ -1780,6 +1781,57 @@ def cycle_plans(p):
     return out
 
 
+def stream_s10(cx, plans):
+    """S10 *obj*: the opcode-level object model (lean/PFV/Obj.lean: which cell every arm of process_stack_ops
+    allocates, aliases, mutates in place or drops) against the implementation's live object graph — every cell
+    that reference counting keeps alive, its kind, whether Stack::push registered it, its strong count and its
+    children, plus stack and memo as cell identities — compared before every opcode and at the end of real runs
+    (both entropy modes, all protocols, safe and unsafe), and of the cycle-closing plans of S8."""
+    ok = bad_other = 0
+    bad = []
+    jobs = [("small", 500), ("default", 300), ("mid", 30)] if cx.tier == "quick" else [("small", 20000), ("default", 8000), ("mid", 800), ("memo", 32)]
+    def judge(pairs, fam):
+        nonlocal ok, bad_other
+        for req, out in pairs:
+            cx.cov["disagreements_checked"] += 1
+            if " ok " in out and out.rstrip().endswith("obj=ok"):
+                ok += 1
+                cx.bump("obj/" + fam)
+                if len(cx.cov["samples"]) < 6 and toks(out).get("steps", "0") not in ("0", "1", "2"):
+                    cx.cov["samples"].append(dict(case=case_of(req)[:200], opcodes_replayed_on_the_object_model=int(toks(out).get("steps", "0")),
+                                                  final_live_object_graph=toks(req).get("graphfinal", "")[:300]))
+            elif " FAIL obj:" in out:
+                bad.append((case_of(req), out[:1500]))
+            elif "skipped=rewritten" in out or " gen=" in out:
+                cx.bump("obj/skipped-" + fam)
+            else:
+                bad_other += 1
+    for prof, n in jobs:
+        req = harness_lines(["trace", "--cases", str(n), "--seed", str(cx.seed * 977 + 5), "--profile", prof, "--unsafe", "mix", "--graph"])
+        reqs = [l for l in req.split("\n") if l.startswith("trace ")]
+        outs = [l for l in drive(req) if l.startswith("trace ")]
+        if len(outs) != len(reqs):
+            raise RuntimeError("driver answered %d of %d graph traces" % (len(outs), len(reqs)))
+        judge(zip(reqs, outs), prof)
+    if plans:
+        rc, out, err = sh([HARNESS, "trace", "--stdin", "--graph"], inp="\n".join(plans) + "\n", timeout=STREAM_TIMEOUT[0])
+        reqs = [l for l in out.split("\n") if l.startswith("trace ")]
+        if rc != 0 or len(reqs) != len(plans):
+            raise RuntimeError("graph traces of the cycle plans: harness rc=%s answered %d of %d" % (rc, len(reqs), len(plans)))
+        outs = [l for l in drive(out) if l.startswith("trace ")]
+        if len(outs) != len(reqs):
+            raise RuntimeError("driver answered %d of %d graph traces (cycle plans)" % (len(outs), len(reqs)))
+        judge(zip(reqs, outs), "cycle-plan")
+    cx.cov["object_graph_traces_agreeing"] = ok
+    cx.cov["traces_validated_against_impl"] += ok
+    if bad_other:
+        cx.cov["object_graph_traces_failing_for_other_reasons"] = bad_other
+    if bad:
+        cx.corr.append(dict(stream="S10", count=len(bad), first=bad[0][1], case=bad[0][0]))
+    elif ok < 50:
+        cx.corr.append(dict(stream="S10", count=1, first="only %d object-graph traces could be compared" % ok))
+
+
 def check_c14(prop, tier, seed):
     """no leak: theorems C14.* on the abstract reference-counting heap (arena invariant preserved by allocation
     and in-place mutation; after release all edges point to older cells; no self-sustaining set), the
@@ -1863,14 +1915,18 @@ def check_c14(prop, tier, seed):
     except Exception as e:
         cx.corr.append(dict(stream="S8", count=1, first="cycle-plan stream could not run: %s" % str(e)[:400]))
     try:
+        stream_s10(cx, [l for l in (locals().get("lines") or []) if len(l) < 4000])
+    except Exception as e:
+        cx.corr.append(dict(stream="S10", count=1, first="object-graph stream could not run: %s" % str(e)[:400]))
+    try:
         deep_nesting(cx)
     except Exception as e:
         cx.corr.append(dict(stream="deep-nesting", count=1, first="deep-nesting family could not run: %s" % str(e)[:400]))
     cov["distinct_nontrivial"] = len(seen)
     cov["sum_of_deltas_bytes"] = total
     cov["input_distribution"] = cx.hist
-    cov["not_modelled"] = ["which Rust statements are alloc / mutate / release is checked syntactically by the translator, not proved",
-                           "allocator behaviour (live bytes) is observed, not modelled; deep-recursion Drop is not examined"]
+    cov["not_modelled"] = ["which Rust statements are alloc / mutate / release: modelled per opcode (Obj.lean) and compared with the live object graph after every opcode (S10), plus the translator's syntactic site check; not proved of the Rust",
+                           "allocator behaviour (live bytes) is observed (S8), not modelled; the recursive Drop of deep nesting is exercised (deep-nesting family), not modelled"]
     cov["impl_vs_oracle_failures"] = len(cx.failing)
     if cx.failing:
         stream, cl, det = cx.failing[0]
